@@ -264,6 +264,11 @@ func genCloseUnderLoad(g *vh.Gen) (string, string) {
 func gen(g *vh.Gen) {
 	// the assembled system (server.FullAssembly + Services.Start), one child process per case
 	asmsys.Gen(g, "asm15")
+	// thorough tier only (66 s of real time each): a healthy monitor with steady events stays attached beyond the pong deadline
+	for i := 0; i < g.N(0, 1); i++ {
+		g.Emit("wslong", "1", "66", "20")
+		g.Emit("wslong", "2", "66", "20")
+	}
 	// the monitor through the real HTTP handlers and a real WebSocket client: one event per WebSocket message
 	for _, c := range [][6]string{{"0", "2", "-", "0", "150", "3"}, {"60", "2", "-", "60", "10", "0"}, {"150", "2", "-", "150", "120", "5"},
 		{"5", "1", "-", "8", "130", "2"}, {"100", "1", "-", "100", "3", "0"}, {"30", "2", vh.HS("a"), "40", "140", "4"}} {
